@@ -37,7 +37,9 @@ func rMatchQ(pattern, path string) bool {
 func rMatchPrefixExact(p, s string) bool { return rMatch(p, s) }
 
 func genC03(rng *rand.Rand, n int, emit func(Case), dist map[string]int) {
-	reqMethods := []string{"GET", "POST", "OPTIONS", "PUT", "PURGE", "LOCK", "DELETE", "OPTIONS", "get", "X-CUSTOM"}
+	reqMethods := []string{"GET", "POST", "OPTIONS", "PUT", "PURGE", "LOCK", "DELETE", "OPTIONS", "get", "X-CUSTOM", "CONNECT", "HEAD", "PATCH", "PROPFIND", "TRACE", "REPORT"}
+	rMethodPool = rAllMethods
+	defer func() { rMethodPool = rMethods }()
 	{ // recorded witness of known finding D12
 		rs := []rRoute{{"GET", "/a/b"}, {"GET", "/a/:x"}, {rNF, "/a/:x"}}
 		srv := rBuild(rs, []int{0, 1, 2})
@@ -92,8 +94,8 @@ func genC03(rng *rand.Rand, n int, emit func(Case), dist map[string]int) {
 				for _, a := range o.allow {
 					hasOpt = hasOpt || a == "OPTIONS"
 				}
-				if !hasOpt || len(o.allow) < 2 {
-					ok, why = false, fmt.Sprintf("Allow %v does not list OPTIONS plus at least one method", o.allow)
+				if !hasOpt {
+					ok, why = false, fmt.Sprintf("Allow %v is empty or does not list OPTIONS", o.allow)
 				}
 				for _, a := range o.allow {
 					if a == "OPTIONS" {
